@@ -107,7 +107,8 @@ CHECKS["C08"] = {
             "and subtract with symbolic readings, degree sizes and zero points: whenever a value is returned it is the "
             "affine point/difference value in the degree size of the label and the label is a point or difference "
             "scale as required; two different offset scales are never combined; Unit.__mul__/__truediv__/__pow__ refuse "
-            "offset units; conversions are the exact affine maps (C03 contract)",
+            "offset units, and so do the unary power ufuncs and hypot / remainder / fmod / multiply / divide with an operand "
+            "on an offset scale, before anything is written; conversions are the exact affine maps (C03 contract)",
     "note": TRUST + UFUNC_NOTE + "; table facts (which names carry a zero point, degree sizes of degC/degF) enter as "
             "preconditions checked by C02's ground obligations; diff/ptp/ediff1d go through diff_helper, executed inline in their handler contracts (C07); unary powers of offset scales are refused (unary contracts)",
     "technique": TECH,
